@@ -445,7 +445,13 @@ func (a *aggregate) merge(b *BatchResult) {
 		if a.Extra == nil {
 			a.Extra = map[string]float64{}
 		}
-		a.Extra[k] += v
+		if strings.HasPrefix(k, "max_") {
+			if v > a.Extra[k] {
+				a.Extra[k] = v
+			}
+		} else {
+			a.Extra[k] += v
+		}
 	}
 }
 
